@@ -192,7 +192,7 @@ def main(argv_tier=None, replay_path=None):
     deep = len({tuple(t["history"]) for t in traces if any(e["op"] == "search" and e["out"] == "ok" for e in t["ev"])})
     import growth
     ga = growth.alias(tr)
-    gl = growth.lost_echo(fx)
+    gl = growth.lost_echo(fx, tr)
     for o in ga["observations"] + gl["observations"]:
         print("OBSERVATION (outside the listed properties) %s" % o)
     from common import apalache_inductive
